@@ -480,25 +480,27 @@ func (v *Validator) lookupEntityAttr(lub entityLUB, attr types.String) *attribut
 	return result
 }
 
-// entityHasTags returns true if all entities in the LUB have tags defined.
+// entityHasTags returns true if some entity type in the LUB has tags defined:
+// only then can an entity of the LUB carry a tag.
 func (v *Validator) entityHasTags(lub entityLUB) bool {
 	for _, et := range lub.elements {
 		entity := v.schema.Entities[et]
-		if entity.Tags == nil {
-			return false
+		if entity.Tags != nil {
+			return true
 		}
 	}
-	return true
+	return false
 }
 
-// entityTagType returns the LUB of the tag types for all entities in the LUB.
-// Returns the LUB type and an error if the tag types are incompatible.
+// entityTagType returns the LUB of the tag types of the entity types in the LUB
+// that have tags defined (an entity carrying a tag has one of those types), or
+// Never if none has. Returns an error if the tag types are incompatible.
 func (v *Validator) entityTagType(lub entityLUB) (cedarType, error) {
 	var result cedarType = typeNever{}
 	for _, et := range lub.elements {
 		entity := v.schema.Entities[et]
 		if entity.Tags == nil {
-			return typeNever{}, nil
+			continue
 		}
 		tagType := schemaTypeToCedarType(entity.Tags)
 		tagLUB, err := v.leastUpperBound(result, tagType)
